@@ -477,6 +477,8 @@ pub fn check_main(args: CheckArgs) -> i32 {
             "violation_classes": by_class.keys().cloned().collect::<Vec<_>>(),
             "known_findings_met": known_reported,
             "regression_replays": regressions_replayed,
+            "simulated_time_covered_s": stats.get("max_clock_s"),
+            "simulated_time_note": "customasm reads no clock: simulated time only moves through the clock script (values between the epoch and year 10000, jumps forwards and backwards between and during jobs); there are no timers or deadlines to fast-forward",
             "harness_errors": agg.harness_errors.clone(),
             "real_vs_stub": crate::real_vs_stub(),
         },
